@@ -239,6 +239,22 @@ func genW3(r *simrt.Rng, prop string, tier string) (*w3Ops, []*model.Desc) {
 		}
 		d := baseDesc(r, go1)
 		uniqueNotes(d, r)
+		if prop == "C17" && r.Chance(0.3) {
+			// a configuration shared by several keyboard models: a section for a sub-handler this keyboard does not
+			// have gives the same keys other notes (another pitch class); it says nothing about this keyboard's LEDs
+			for mi := range d.Mappings {
+				if len(d.Mappings[mi].Keys) == 0 {
+					continue
+				}
+				ghost := model.SubKeys{Sub: "Other Model"}
+				for _, k := range d.Mappings[mi].Keys[0].Keys {
+					k.Note = (k.Note + 1 + 2*r.Intn(3)) % 128
+					k.NoteText = fmt.Sprint(k.Note)
+					ghost.Keys = append(ghost.Keys, k)
+				}
+				d.Mappings[mi].Keys = append(d.Mappings[mi].Keys, ghost)
+			}
+		}
 		if prop == "C16" {
 			// devices of one run play on disjoint channels (cross-talk differential)
 			d.Channel = 1 + i*5
